@@ -332,6 +332,57 @@ def disna(chk, mod, dem, N):
                                   VERIF, N, job, ' '.join(repr(v) for v in vals)))
 
 
+def goldstone(chk, mod, dem, N):
+    """move_goldstone_to(0, mass, v, z): afterwards v(0) is an element closest to mass, v is a permutation of the input that keeps
+    the relative order of the other states, and the rows of z are permuted with v"""
+    fam = 'move_goldstone_to'
+    name = 'move_goldstone_to<%d>' % N
+    chk.functions.add(name)
+    v = [z3.Real('v%d' % i) for i in range(N)]
+    Z = [[z3.Real('Z%d%d' % (i, j)) for j in range(N)] for i in range(N)]
+    mass = z3.Real('mass')
+    ex = executor(mod, RealDom(), fork_select=True)
+    st = X.State()
+    rv = ex.new_region(st, 8 * N, 'stack', 'v')
+    rz = ex.new_region(st, 8 * N * N, 'stack', 'z')
+    for i in range(N):
+        sd(ex, st, Ptr(rv.rid, 0), i, v[i])
+        for j in range(N):
+            sd(ex, st, Ptr(rz.rid, 0), i + N * j, Z[i][j])
+    s2 = ex.start('vx_move_goldstone%d' % N, [0, mass, Ptr(rv.rid, 0), Ptr(rz.rid, 0)], st)
+    try:
+        rr = ex.explore(s2)
+    except Unsupported as e:
+        chk.record(name, 'gap', str(e)[:100], family=fam)
+        chk.not_covered.append('%s not executed (%s)' % (name, str(e)[:80]))
+        return
+    chk.absorb_executor(ex)
+    jobs = []
+    for pi, p in enumerate(rr):
+        if p.outcome[0] != 'ret':
+            continue
+        vo = [ld(ex, p, Ptr(rv.rid, 0), i) for i in range(N)]
+        zo = [[ld(ex, p, Ptr(rz.rid, 0), i + N * j) for j in range(N)] for i in range(N)]
+
+        def ab(x):
+            return z3.If(x >= 0, x, -x)
+        # admissible outcomes: position k (a closest element) moved to the front, the others keep their order
+        outs = []
+        for k in range(N):
+            perm = [k] + [i for i in range(N) if i != k]
+            closest = z3.And([ab(v[k] - mass) <= ab(v[i] - mass) for i in range(N)])
+            same = z3.And([vo[a] == v[perm[a]] for a in range(N)] + [zo[a][j] == Z[perm[a]][j] for a in range(N) for j in range(N)])
+            outs.append(z3.And(closest, same))
+        jobs.append({'name': '%s#%d' % (name, pi), 'constraints': list(p.pc) + [z3.Not(z3.Or(*outs))], 'family': fam,
+                     'sample': {'obligation': '%s: the state closest to the given mass is moved to index 0, the other states keep their order and the '
+                                'rows of the mixing matrix are permuted together with the masses' % name}})
+    res = chk.prove_many(jobs, timeout_ms=60000)
+    for job, (r, m) in zip(jobs, res):
+        if r == 'sat':
+            chk.violation(job['name'], 'C12:move_goldstone_to', 'move_goldstone_to does not permute the mixing-matrix rows with the masses / does '
+                          'not move the closest state to the front', '#!/bin/sh\ncd %s && exec python3-vt -m props.replay_c04\n' % VERIF)
+
+
 def zr_int(v):
     return v if isinstance(v, z3.ExprRef) else z3.IntVal(v)
 
@@ -352,6 +403,8 @@ def run(chk):
     sizes = (2, 3) if chk.tier == 'quick' else (2, 3, 4)
     for N in (2, 3, 4):
         disna(chk, mod, dem, N)
+    for N in (2, 3):
+        goldstone(chk, mod, dem, N)
     for N in sizes:
         herm(chk, mod, dem, N, chk.tier)
     for N in sizes:
